@@ -365,61 +365,57 @@ def remove_qubit(tableau, qubit_position, measurement_determinism="probabilistic
     tableau, outcome, probabilistic = z_measurement_gate(
         tableau, qubit_position, measurement_determinism
     )
-    new_table = np.delete(
-        tableau.table, [qubit_position, qubit_position + n_qubits], axis=1
-    )
 
     if probabilistic:
-        new_table = np.delete(
-            new_table, [probabilistic, probabilistic - n_qubits], axis=0
-        )
-        new_phase = np.delete(tableau.phase, [probabilistic, probabilistic - n_qubits])
-        new_iphase = np.delete(
-            tableau.iphase, [probabilistic, probabilistic - n_qubits]
-        )
+        # after a random-outcome measurement, row `probabilistic` is the stabilizer +/- Z_q
+        z_row = probabilistic
     else:
         non_zero = [
             i for i in range(n_qubits) if tableau.destabilizer_x[i, qubit_position] != 0
         ]
         assert len(non_zero) > 0
-        if len(non_zero) == 1:
-            new_table = np.delete(
-                new_table, [non_zero[0], non_zero[0] + n_qubits], axis=0
-            )
-            new_phase = np.delete(tableau.phase, [non_zero[0], non_zero[0] + n_qubits])
-            new_iphase = np.delete(
-                tableau.iphase, [non_zero[0], non_zero[0] + n_qubits]
-            )
-        else:
-            omit_index = non_zero[0]
-            # remove first element from the non_zero list
-            non_zero = non_zero[1:]
-            # update tableau
-            for row in non_zero:
-                (
-                    tableau.table_x,
-                    tableau.table_z,
-                    tableau.phase,
-                    tableau.iphase,
-                ) = row_sum(
-                    tableau.table_x,
-                    tableau.table_z,
-                    tableau.phase,
-                    tableau.iphase,
-                    omit_index,
-                    row,
-                )
-            # remove columns and then rows
-            new_table = np.delete(
-                tableau.table, [qubit_position, qubit_position + n_qubits], axis=1
-            )
-            new_table = np.delete(
-                new_table, [omit_index, omit_index + n_qubits], axis=0
-            )
-            new_phase = np.delete(tableau.phase, [omit_index, omit_index + n_qubits])
-            new_iphase = np.delete(tableau.iphase, [omit_index, omit_index + n_qubits])
+        omit_index = non_zero[0]
+        # make the destabilizer `omit_index` the only one acting with X on the qubit, and, dually, make its
+        # stabilizer partner the product of the partners, which is +/- Z_q
+        for row in non_zero[1:]:
+            _tableau_row_sum(tableau, omit_index, row)
+            _tableau_row_sum(tableau, row + n_qubits, omit_index + n_qubits)
+        z_row = omit_index + n_qubits
+
+    # absorb the Z factor (with its sign) that any other generator has on the qubit before dropping the column
+    for row in range(2 * n_qubits):
+        if row not in (z_row, z_row - n_qubits) and (
+            tableau.table[row, qubit_position + n_qubits] != 0
+        ):
+            _tableau_row_sum(tableau, z_row, row)
+
+    new_table = np.delete(
+        tableau.table, [qubit_position, qubit_position + n_qubits], axis=1
+    )
+    new_table = np.delete(new_table, [z_row, z_row - n_qubits], axis=0)
+    new_phase = np.delete(tableau.phase, [z_row, z_row - n_qubits])
+    new_iphase = np.delete(tableau.iphase, [z_row, z_row - n_qubits])
     tableau.shrink(new_table, new_phase, new_iphase)
     return tableau
+
+
+def _tableau_row_sum(tableau, row_to_add, target_row):
+    """
+    Multiply the generator in target_row by the generator in row_to_add, in place
+    """
+    (
+        tableau.table_x,
+        tableau.table_z,
+        tableau.phase,
+        tableau.iphase,
+    ) = row_sum(
+        tableau.table_x,
+        tableau.table_z,
+        tableau.phase,
+        tableau.iphase,
+        row_to_add,
+        target_row,
+    )
 
 
 def swap_gate(tableau, qubit1, qubit2):
